@@ -82,6 +82,36 @@ def t3(rep, tier, seed):
                 rep.violation("spec", "fmtnum does not render as C printf would", {"value": v, "format": f, "observed": got, "wanted": want}, True)
     if known_g:
         rep.known_finding(rep.known_tag("fmtnum-g-default-precision"), len(known_g), known_g[0])
+    # --- `=~` and its \0-\9 captures (and the "..."i form) vs Python's re on the shared syntax
+    import re as pyre
+    regexes = ["(a)(b)(c)(d)(e)(f)(g)(h)(i)", "(.)(.)(.)(.)(.)(.)(.)(.)(.)(.)", "([a-c]+)-([0-9]+)", "^(.)(.*)$", "(x)|(y)", "b+", "(b+)(c*)",
+               "^([^-]*)-(.*)$", "(a|b)(c|d)?", "([0-9]+)\\.([0-9]+)", "((a)(b))((c))", "(é)(l+)"]
+    subjects = ["abcdefghij", "abc-123", "xyz", "y", "abbbc", "hello-world-x", "bd", "3.14", "abcd", "héllo", "", "ABCDEFGHIJ", "0123456789abc"]
+    tmpl = ":".join("\\%d" % k for k in range(10))
+    counts["match_captures"] = 0
+    lines = []
+    cases_m = []
+    for rx in regexes:
+        for ci in (False, True):
+            lit = '"%s"%s' % (rx, "i" if ci else "")
+            prog = 'if ($s =~ %s) { $o = "%s" } else { $o = "NOMATCH" }' % (lit, tmpl)
+            data = "".join(json.dumps({"s": t}, ensure_ascii=False) + "\n" for t in subjects)
+            rc, so, se = t3util.run(mlr, ["--ijsonl", "--ojsonl", "put", prog], stdin=data.encode())
+            if rc != 0:
+                rep.violation("spec", "a =~ program failed", {"program": prog, "exit": rc, "stderr": se.decode(errors="replace")[:300]}, True)
+                continue
+            pat = pyre.compile(rx.replace("\\\\", "\\"), pyre.I if ci else 0)
+            for line, t in zip(so.decode().splitlines(), subjects):
+                got = json.loads(line).get("o")
+                m = pat.search(t)
+                if m is None:
+                    want = "NOMATCH"
+                else:
+                    gs = [m.group(0)] + [(g or "") for g in m.groups()]
+                    want = ":".join((gs[k] if k < len(gs) else "") for k in range(10))
+                counts["match_captures"] += 1
+                if str(got) != want:
+                    rep.violation("spec", "=~ captures differ from the reference regex engine", {"regex": lit, "subject": t, "observed": got, "wanted": want}, True)
     # --- the wrapping verbs equal the function applied per field
     recs = [{"a": "Hello  World ", "b": " x\ty ", "c": "abcabc", "d": "3.14159", "e": "17", "f": "héllo wörld"}] * 2
     text = "\n".join(json.dumps(r, ensure_ascii=False) for r in recs) + "\n"
